@@ -9,10 +9,12 @@
    forward entry FORWARD(op) reaches, with the same operands, attributes and constants, (3) the
    composite bodies are the reviewed ones, whose rules are proved adjoint to the forward kernels
    (C01_bw_adjoint_*, over the index-program model Tensor/Kernels.v). *)
-From Coq Require Import List String Bool Arith.
-From PV Require Import Tables.OpSyntax Tables.OpUtil Tables.OpRows Tables.BwReviewed Gen.BwTables Tables.BwCheck Tables.BwFacts.
+From Coq Require Import List String Bool Arith ZArith Ring.
+From PV Require Import Graph.OpFamily Tensor.Kernels Tensor.AdjCore Tensor.GraphInst.
+From PV Require Import Tables.OpSyntax Tables.OpUtil Tables.OpRows Tables.BwReviewed Tables.BwSem Tables.BwAdjoint Gen.BwTables Tables.BwCheck Tables.BwFacts.
 Import ListNotations.
 Local Open Scope string_scope.
+Local Open Scope list_scope.
 
 (* (1) accumulate-only: in EVERY BACKWARD body (incl. the PRIMITIV_USE_CACHE variants) every write
    through gx[i] / a `Tensor *gxi : gx` / param_.gradient() is `+=`, `-=` or an accumulating Device
@@ -68,3 +70,151 @@ Example C01_bw_nonvacuous_delegation :
   | _, _ => False
   end.
 Proof. vm_compute. auto. Qed.
+
+(* ================================================================== (4) the reviewed composites are adjoints
+   The reviewed syntax trees (which (3) ties to the current source) are RUN by the evaluator of
+   Tables/BwSem.v over the index programs of Tensor/Kernels.v (functions::slice = slice_fw, `+=` =
+   inplace_add, dev.slice_bw = slice_bw ...).  For every commutative ring, all accumulator contents
+   gx, all directions dx:   <gx_after, dx> = <gx_before, dx> + <gy, forward(dx)>
+   where forward = d_jvp of the operator of the concrete family of Tensor/GraphInst.v (= its forward
+   index program applied to dx; the family of C01_graph_backward_is_adjoint_concrete).  Guards
+   (`*_ok`) are the numeric relations the Device front end establishes; the shape hypotheses say that
+   the intermediate tensor the evaluator computes has the operand's shape (dim < depth). *)
+Section Adjoints.
+  Context (R : Type) (rO rI : R) (radd rmul rsub : R -> R -> R) (ropp : R -> R).
+  Context (Rth : ring_theory rO rI radd rmul rsub ropp eq).
+  Notation dot := (OpFamily.dot rO radd rmul).
+  Notation dots := (OpFamily.dots rO radd rmul).
+  Notation rbw := (run_bw rO radd ropp).
+  Notation E0 := (env0 (R := R)).
+  Notation desc := (describe rO radd rmul rsub ropp).
+  Notation szd := (sized (R := R)).
+
+  (* gx[0] += gy[0] *)
+  Theorem C01_bw_adjoint_Positive s (x dx gy gx : list R) : 0 < tbatch s ->
+    List.length x = tsize s -> List.length dx = tsize s -> List.length gy = tsize s -> List.length gx = tsize s ->
+    exists gx', rbw rv_Positive (E0 [(s, x)] [] [(s, gy)] [(s, gx)] []) = Some [(s, gx')] /\
+      dot gx' dx = radd (dot gx dx) (dots [gy] (d_jvp (desc (OCopy s)) [x] [dx])).
+  Proof. exact (adjoint_Positive rO rI radd rmul rsub ropp Rth s x dx gy gx). Qed.
+
+  Theorem C01_bw_adjoint_Copy s (x dx gy gx : list R) : 0 < tbatch s ->
+    List.length x = tsize s -> List.length dx = tsize s -> List.length gy = tsize s -> List.length gx = tsize s ->
+    exists gx', rbw rv_Copy (E0 [(s, x)] [] [(s, gy)] [(s, gx)] []) = Some [(s, gx')] /\
+      dot gx' dx = radd (dot gx dx) (dots [gy] (d_jvp (desc (OCopy s)) [x] [dx])).
+  Proof. exact (adjoint_Copy rO rI radd rmul rsub ropp Rth s x dx gy gx). Qed.
+
+  (* gx[0] -= gy[0] *)
+  Theorem C01_bw_adjoint_Negative s (x dx gy gx : list R) : 0 < tbatch s ->
+    List.length x = tsize s -> List.length dx = tsize s -> List.length gy = tsize s -> List.length gx = tsize s ->
+    exists gx', rbw rv_Negative (E0 [(s, x)] [] [(s, gy)] [(s, gx)] []) = Some [(s, gx')] /\
+      dot gx' dx = radd (dot gx dx) (dots [gy] (d_jvp (desc (ONeg s)) [x] [dx])).
+  Proof. exact (adjoint_Negative rO rI radd rmul rsub ropp Rth s x dx gy gx). Qed.
+
+  (* gx[0] += gy[0].reshape(x[0].shape()) *)
+  Theorem C01_bw_adjoint_Reshape sx sy (x dx gy gx : list R) : reshape_ok sx sy = true ->
+    List.length x = tsize sx -> List.length dx = tsize sx -> List.length gy = tsize sy -> List.length gx = tsize sx ->
+    exists gx', rbw rv_Reshape (E0 [(sx, x)] [] [(sy, gy)] [(sx, gx)] []) = Some [(sx, gx')] /\
+      dot gx' dx = radd (dot gx dx) (dots [gy] (d_jvp (desc (OReshape sx sy)) [x] [dx])).
+  Proof. exact (adjoint_Reshape rO rI radd rmul rsub ropp Rth sx sy x dx gy gx). Qed.
+
+  Theorem C01_bw_adjoint_Flatten sx sy (x dx gy gx : list R) : reshape_ok sx sy = true ->
+    List.length x = tsize sx -> List.length dx = tsize sx -> List.length gy = tsize sy -> List.length gx = tsize sx ->
+    exists gx', rbw rv_Flatten (E0 [(sx, x)] [] [(sy, gy)] [(sx, gx)] []) = Some [(sx, gx')] /\
+      dot gx' dx = radd (dot gx dx) (dots [gy] (d_jvp (desc (OReshape sx sy)) [x] [dx])).
+  Proof. exact (adjoint_Flatten rO rI radd rmul rsub ropp Rth sx sy x dx gy gx). Qed.
+
+  (* gx[0] += broadcast(gy[0], dim_, x[0].shape()[dim_]) *)
+  Theorem C01_bw_adjoint_Sum sx sy dim (x dx gy gx : list R) : sum_ok sx sy dim = true -> tset sy dim (tget sx dim) = sx ->
+    List.length x = tsize sx -> List.length dx = tsize sx -> List.length gy = tsize sy -> List.length gx = tsize sx ->
+    exists gx', rbw rv_Sum (E0 [(sx, x)] [] [(sy, gy)] [(sx, gx)] [("dim_", VN dim)]) = Some [(sx, gx')] /\
+      dot gx' dx = radd (dot gx dx) (dots [gy] (d_jvp (desc (OSum sx sy dim)) [x] [dx])).
+  Proof. exact (adjoint_Sum rO rI radd rmul rsub ropp Rth sx sy dim x dx gy gx). Qed.
+
+  (* gx[0] += sum(gy[0], dim_) *)
+  Theorem C01_bw_adjoint_Broadcast sx sy dim size (x dx gy gx : list R) :
+    (sum_ok sy sx dim && Nat.eqb (tget sy dim) size)%bool = true -> tset sy dim 1 = sx ->
+    List.length x = tsize sx -> List.length dx = tsize sx -> List.length gy = tsize sy -> List.length gx = tsize sx ->
+    exists gx', rbw rv_Broadcast (E0 [(sx, x)] [] [(sy, gy)] [(sx, gx)] [("dim_", VN dim); ("size_", VN size)]) = Some [(sx, gx')] /\
+      dot gx' dx = radd (dot gx dx) (dots [gy] (d_jvp (desc (OBroadcast sx sy dim size)) [x] [dx])).
+  Proof. exact (adjoint_Broadcast rO rI radd rmul rsub ropp Rth sx sy dim size x dx gy gx). Qed.
+
+  (* gx[0] += gy[0] with gy of batch 1 *)
+  Theorem C01_bw_adjoint_BatchSum sx sy (x dx gy gx : list R) : batch_sum_ok sx sy = true ->
+    List.length x = tsize sx -> List.length dx = tsize sx -> List.length gy = tsize sy -> List.length gx = tsize sx ->
+    exists gx', rbw rv_BatchSum (E0 [(sx, x)] [] [(sy, gy)] [(sx, gx)] []) = Some [(sx, gx')] /\
+      dot gx' dx = radd (dot gx dx) (dots [gy] (d_jvp (desc (OBatchSum sx sy)) [x] [dx])).
+  Proof. exact (adjoint_BatchSum rO rI radd rmul rsub ropp Rth sx sy x dx gy gx). Qed.
+
+  (* for i < n_: dev.slice_bw(gy[i], dim_, i*span, gx[0]) -- n outputs, all gradients present *)
+  Theorem C01_bw_adjoint_Split sx sy dim n (x dx gx gyd0 : list R) ys (gyds : list (list R)) :
+    split_ok sx sy dim n = true -> Forall2 szd (gyd0 :: gyds) (repeat sy n) ->
+    List.length x = tsize sx -> List.length dx = tsize sx -> List.length gx = tsize sx ->
+    exists gx', rbw rv_Split (E0 [(sx, x)] ys (map (fun d => (sy, d)) (gyd0 :: gyds)) [(sx, gx)] [("dim_", VN dim); ("n_", VN n)]) = Some [(sx, gx')] /\
+      dot gx' dx = radd (dot gx dx) (dots (gyd0 :: gyds) (d_jvp (desc (OSplit sx sy dim n)) [x] [dx])).
+  Proof. exact (adjoint_Split rO rI radd rmul rsub ropp Rth sx sy dim n x dx gx gyd0 ys gyds). Qed.
+
+  Theorem C01_bw_adjoint_BatchSplit sx sy n (x dx gx gyd0 : list R) ys (gyds : list (list R)) :
+    batch_split_ok sx sy n = true -> Forall2 szd (gyd0 :: gyds) (repeat sy n) ->
+    List.length x = tsize sx -> List.length dx = tsize sx -> List.length gx = tsize sx ->
+    exists gx', rbw rv_BatchSplit (E0 [(sx, x)] ys (map (fun d => (sy, d)) (gyd0 :: gyds)) [(sx, gx)] [("n_", VN n)]) = Some [(sx, gx')] /\
+      dot gx' dx = radd (dot gx dx) (dots (gyd0 :: gyds) (d_jvp (desc (OBatchSplit sx sy n)) [x] [dx])).
+  Proof. exact (adjoint_BatchSplit rO rI radd rmul rsub ropp Rth sx sy n x dx gx gyd0 ys gyds). Qed.
+
+  (* offset = 0; for every operand k in order: gx_k += slice(gy[0], dim_, offset, offset + n_k); offset += n_k
+     -- any number of operands, operands of batch 1 next to operands of the full batch *)
+  Theorem C01_bw_adjoint_Concat xs ys sy (gy : list R) dim (shs : list tshape) (xv dxs gxds : list (list R)) :
+    concat_ok shs sy dim = true ->
+    (forall k sk, nth_error shs k = Some sk -> tset sy dim (tget sk dim) = rebatch sk (tbatch sy)) ->
+    Forall2 szd xv shs -> Forall2 szd dxs shs -> List.length gy = tsize sy -> Forall2 szd gxds shs ->
+    exists gxs', rbw rv_Concat (E0 xs ys [(sy, gy)] (combine shs gxds) [("dim_", VN dim)]) = Some gxs' /\ map fst gxs' = shs /\
+      dots (map snd gxs') dxs = radd (dots gxds dxs) (dots [gy] (d_jvp (desc (OConcat shs sy dim)) xv dxs)).
+  Proof. exact (adjoint_Concat rO rI radd rmul rsub ropp Rth xs ys sy gy dim shs xv dxs gxds). Qed.
+
+  Theorem C01_bw_adjoint_BatchConcat xs ys sy (gy : list R) (shs : list tshape) (xv dxs gxds : list (list R)) :
+    batch_concat_ok shs sy = true ->
+    (forall k sk, nth_error shs k = Some sk -> mkT (tdims sy) (tbatch sk) = sk) ->
+    Forall2 szd xv shs -> Forall2 szd dxs shs -> List.length gy = tsize sy -> Forall2 szd gxds shs ->
+    exists gxs', rbw rv_BatchConcat (E0 xs ys [(sy, gy)] (combine shs gxds) []) = Some gxs' /\ map fst gxs' = shs /\
+      dots (map snd gxs') dxs = radd (dots gxds dxs) (dots [gy] (d_jvp (desc (OBatchConcat shs sy)) xv dxs)).
+  Proof. exact (adjoint_BatchConcat rO rI radd rmul rsub ropp Rth xs ys sy gy shs xv dxs gxds). Qed.
+End Adjoints.
+Print Assumptions C01_bw_adjoint_Concat.
+Print Assumptions C01_bw_adjoint_Split.
+Print Assumptions C01_bw_adjoint_Sum.
+Print Assumptions C01_bw_adjoint_Negative.
+
+(* ------------------------------------------------------------------ non-vacuity of (4) *)
+Definition ex_s22 := mkT [2; 2] 1.  Definition ex_s42 := mkT [4; 2] 1.  Definition ex_s12 := mkT [1; 2] 1.
+Definition ex_b1 := mkT [2] 1.  Definition ex_b2 := mkT [2] 2.  Definition ex_b3 := mkT [2] 3.
+
+(* the guards and shape hypotheses of the adjoint theorems hold for ordinary shapes *)
+Example C01_bw_nonvacuous_guards :
+  concat_ok [ex_s22; ex_s22] ex_s42 0 = true /\ tset ex_s42 0 2 = rebatch ex_s22 1 /\
+  split_ok ex_s42 ex_s22 0 2 = true /\ sum_ok ex_s22 ex_s12 0 = true /\ tset ex_s12 0 2 = ex_s22 /\ tset ex_s22 0 1 = ex_s12 /\
+  batch_concat_ok [ex_b1; ex_b2] ex_b3 = true /\ batch_split_ok ex_b2 ex_b1 2 = true /\ batch_sum_ok ex_b3 ex_b1 = true /\
+  reshape_ok ex_s22 (mkT [4] 1) = true.
+Proof. vm_compute. repeat split; reflexivity. Qed.
+
+(* the evaluator run on the reviewed bodies over Z: Concat of two [2,2] operands along axis 0 slices
+   gy = 1..8 of shape [4,2] at the running offset and ADDS to the prior accumulators 10 / 20;
+   Split scatters the two output gradients at i*span; Negative subtracts; BatchConcat slices the batch *)
+Example C01_bw_nonvacuous_eval :
+  let rb := run_bw 0%Z Z.add Z.opp in
+  let z (l : list Z) := l in
+  rb rv_Concat (env0 [] [] [(ex_s42, z [1; 2; 3; 4; 5; 6; 7; 8])] [(ex_s22, z [10; 10; 10; 10]); (ex_s22, z [20; 20; 20; 20])] [("dim_", VN 0)])%Z
+    = Some [(ex_s22, z [11; 12; 15; 16]); (ex_s22, z [23; 24; 27; 28])]%Z /\
+  rb rv_Split (env0 [] [] [(ex_s22, z [1; 2; 3; 4]); (ex_s22, z [5; 6; 7; 8])] [(ex_s42, z [10; 10; 10; 10; 10; 10; 10; 10])] [("dim_", VN 0); ("n_", VN 2)])%Z
+    = Some [(ex_s42, z [11; 12; 15; 16; 13; 14; 17; 18])]%Z /\
+  rb rv_Sum (env0 [(ex_s22, z [0; 0; 0; 0])] [] [(ex_s12, z [1; 2])] [(ex_s22, z [10; 10; 10; 10])] [("dim_", VN 0)])%Z
+    = Some [(ex_s22, z [11; 11; 12; 12])]%Z /\
+  rb rv_Broadcast (env0 [] [] [(ex_s22, z [1; 2; 3; 4])] [(ex_s12, z [10; 10])] [("dim_", VN 0); ("size_", VN 2)])%Z
+    = Some [(ex_s12, z [13; 17])]%Z /\
+  rb rv_Negative (env0 [] [] [(ex_s22, z [1; 2; 3; 4])] [(ex_s22, z [10; 10; 10; 10])] [])%Z
+    = Some [(ex_s22, z [9; 8; 7; 6])]%Z /\
+  rb rv_BatchSum (env0 [] [] [(ex_b1, z [1; 2])] [(ex_b3, z [10; 10; 10; 10; 10; 10])] [])%Z
+    = Some [(ex_b3, z [11; 12; 11; 12; 11; 12])]%Z /\
+  rb rv_BatchConcat (env0 [] [] [(ex_b3, z [1; 2; 3; 4; 5; 6])] [(ex_b1, z [10; 10]); (ex_b2, z [20; 20; 20; 20])] [])%Z
+    = Some [(ex_b1, z [11; 12]); (ex_b2, z [23; 24; 25; 26])]%Z /\
+  (* a body outside the fragment does not evaluate *)
+  rb rv_LogSumExp (env0 [] [] [] [] []) = None.
+Proof. vm_compute. repeat split; reflexivity. Qed.
